@@ -16,17 +16,27 @@ Theorem C10_vod_children :
 Proof. exact rewrite_vod_children. Qed.
 Print Assumptions C10_vod_children.
 
-(* no pssh selected (clear track, or no selected system places data in moov) and no direct mehd
-   child: the init segment is the stored one *)
+(* no pssh selected (clear track, or no selected system places data in moov) and no mehd box under moov or
+   moov/mvex: the init segment is the stored one *)
 Theorem C10_identity :
   forall live top,
   Forall (fun b => match b with
-                   | Node t cs => bytes_eqb t typ_moov = true ->
-                                  Forall (fun x => bytes_eqb (box_typ x) typ_mehd = false) cs
+                   | Node t cs => bytes_eqb t typ_moov = true -> no_mehd_deep cs
                    | _ => True end) top ->
   rewrite_init live [] top = top.
 Proof. exact rewrite_init_identity. Qed.
 Print Assumptions C10_identity.
+
+(* live: the mehd box goes - from moov itself and from its mvex child, where the fixtures keep it (the pinned code
+   only looked under moov and left it in place: repaired in /repo) - and nothing else does: the other children keep
+   their order, the pssh boxes follow *)
+Theorem C10_live_mehd_removed :
+  forall psshs cs, (count_typ typ_mehd (cs ++ psshs) <= 1)%nat ->
+  Forall (fun x => bytes_eqb (box_typ x) typ_mehd = false) (drop_first_typ typ_mehd (cs ++ psshs)) /\
+  forall ds, (count_typ typ_mehd ds <= 1)%nat ->
+    Forall (fun x => bytes_eqb (box_typ x) typ_mehd = false) (drop_first_typ typ_mehd ds).
+Proof. intros psshs cs H. split; [apply drop_first_removes; exact H|intros ds Hd; apply drop_first_removes; exact Hd]. Qed.
+Print Assumptions C10_live_mehd_removed.
 
 (* the result is a well-formed box stream: it parses back to the rewritten tree (sizes nest) *)
 Theorem C10_wellformed :
@@ -37,11 +47,13 @@ Proof. intros. apply parse_enc; assumption. Qed.
 Print Assumptions C10_wellformed.
 
 Example C10_example :
-  let moov := Node typ_moov [Leaf (fourcc 109 118 104 100) [1]; Leaf typ_mehd [2]; Leaf (fourcc 116 114 97 107) [3]] in
+  let mvex := Node typ_mvex [Leaf typ_mehd [2]; Leaf (fourcc 116 114 101 120) [4]] in
+  let moov := Node typ_moov [Leaf (fourcc 109 118 104 100) [1]; mvex; Leaf (fourcc 116 114 97 107) [3]] in
   let pssh := Leaf typ_pssh [9; 9] in
   rewrite_init false [pssh] [Leaf (fourcc 102 116 121 112) [0]; moov] =
     [Leaf (fourcc 102 116 121 112) [0];
-     Node typ_moov [Leaf (fourcc 109 118 104 100) [1]; Leaf typ_mehd [2]; Leaf (fourcc 116 114 97 107) [3]; pssh]] /\
+     Node typ_moov [Leaf (fourcc 109 118 104 100) [1]; mvex; Leaf (fourcc 116 114 97 107) [3]; pssh]] /\
   rewrite_init true [pssh] [moov] =
-    [Node typ_moov [Leaf (fourcc 109 118 104 100) [1]; Leaf (fourcc 116 114 97 107) [3]; pssh]].
+    [Node typ_moov [Leaf (fourcc 109 118 104 100) [1]; Node typ_mvex [Leaf (fourcc 116 114 101 120) [4]];
+                    Leaf (fourcc 116 114 97 107) [3]; pssh]].
 Proof. vm_compute. split; reflexivity. Qed.
